@@ -4,7 +4,7 @@ C20: the structural induction over the Node tree for ALL node kinds, in the labe
 
   fexpr : typedE env n → flowE n → SemP FlowP (genExpr env n) 0 (xOf n.ty?) 0
   faddr : typedA env n → flowA n → SemP FlowP (genAddr env n) 0 0 0
-  fstmt : typedS env n → flowS R rl n → SemF A 0 0 (genStmt env n) (at0 (defsS n)) 0 0 0
+  fstmt : typedS env n → flowS R rl n → SemF [] A 0 0 (genStmt env n) (at0 (defsS n)) 0 0 0
           (A holds the labels of the region R at the height of the region's statements and, where
            `return` is allowed, the function's return label at x87 height 1 iff it returns long double)
   fbody : the body of a statement expression, a region of its own
@@ -19,14 +19,21 @@ import ChibiVerif.Lemmas.C20Induction
 namespace ChibiVerif.Lemmas.C20
 open ChibiVerif ChibiVerif.Codegen ChibiVerif.Effect ChibiVerif.Asm ChibiVerif.Ast ChibiVerif.C20Scope
 
-theorem SemF.congrG {A : List (String × H)} {ro xo : Int} {m : M α} {G G' : List (String × H)} {r x dd : Int}
-    (h : SemF A ro xo m G r x dd) (e : G = G') : SemF A ro xo m G' r x dd := e ▸ h
+theorem SemF.congrG {own : List String} {A : List (String × H)} {ro xo : Int} {m : M α} {G G' : List (String × H)}
+    {r x dd : Int} (h : SemF own A ro xo m G r x dd) (e : G = G') : SemF own A ro xo m G' r x dd := e ▸ h
 
 /-- `loc` in front of a statement -/
 theorem SemF_loc {A : List (String × H)} (i : NInfo) {m : M Unit} {G : List (String × H)} {x : Int}
-    (h : SemF A 0 0 m G 0 x 0) : SemF A 0 0 (loc i >>= fun _ => m) G 0 x 0 :=
+    (h : SemF [] A 0 0 m G 0 x 0) : SemF [] A 0 0 (loc i >>= fun _ => m) G 0 x 0 :=
   (cl (Sem_loc i) ⨾ h.weak (fun _ _ h => h) (by omega) (by omega)).conv rfl rfl (by omega) (by omega) (by omega)
     (fun _ _ h => Or.inr h) (fun _ _ h => by simpa using h)
+
+/-- two statements in sequence -/
+theorem SemF_seq {A : List (String × H)} {m1 m2 : M Unit} {G1 G2 : List (String × H)} {x : Int}
+    (h1 : SemF [] A 0 0 m1 G1 0 0 0) (h2 : SemF [] A 0 0 m2 G2 0 x 0) :
+    SemF [] A 0 0 (m1 >>= fun _ => m2) (G1 ++ G2) 0 x 0 :=
+  SemF.conv (h1 ⨾ h2.weak (fun _ _ h => h) (by omega) (by omega)) rfl rfl (by omega) (Int.zero_add _) (by omega)
+    (fun _ _ h => Or.inr h) (fun _ _ h => h)
 
 theorem Ret_isAllocaCall_true {lhs : Node} (h : notAlloca lhs = false) :
     Ret (isAllocaCall lhs) (fun b => b = true) := by
@@ -44,8 +51,8 @@ theorem Ret_isAllocaCall_true {lhs : Node} (h : notAlloca lhs = false) :
       exact Ret_pure (by simp [h])
 
 theorem optRun_optGen {A : List (String × H)} {e : Node} {g : M Unit}
-    (h : isNull e = false → SemF A 0 0 g (at0 (defsS e)) 0 0 0) :
-    SemF A 0 0 (optRun (optGen e g)) (at0 (defsS e)) 0 0 0 := by
+    (h : isNull e = false → SemF [] A 0 0 g (at0 (defsS e)) 0 0 0) :
+    SemF [] A 0 0 (optRun (optGen e g)) (at0 (defsS e)) 0 0 0 := by
   cases e <;> first
     | exact cl (Sem_pure ())
     | exact h rfl
@@ -445,14 +452,14 @@ theorem fstmt (env : Env) (R : List String) (rl : Option Bool) (A : List (String
     (hR : ∀ l, l ∈ R → (l, (⟨0, 0⟩ : H)) ∈ A)
     (hret : ∀ ld, rl = some ld → (retLabel env, (⟨0, if ld then 1 else 0⟩ : H)) ∈ A) :
     (n : Node) → typedS env n = true → flowS R rl n = true →
-    SemF A 0 0 (genStmt env n) (at0 (defsS n)) 0 0 0
+    SemF [] A 0 0 (genStmt env n) (at0 (defsS n)) 0 0 0
   | .if_ i c t e, ht, hf => by
     rw [genStmt]
     simp only [typedS, Bool.and_eq_true] at ht
     simp only [flowS, Bool.and_eq_true] at hf
     have hc := fexpr env c ht.1.1 hf.1.1
     have h1 := fstmt env R rl A hR hret t ht.1.2 hf.1.2
-    have he : SemF A 0 0 (optRun (optGen e (genStmt env e))) (at0 (defsS e)) 0 0 0 :=
+    have he : SemF [] A 0 0 (optRun (optGen e (genStmt env e))) (at0 (defsS e)) 0 0 0 :=
       optRun_optGen (fun hn => fstmt env R rl A hR hret e (or_isNull ht.2 hn) (or_isNull hf.2 hn))
     refine (SemF_loc i (SemF_ifArm c.ty? _ hc h1 he)).congrG ?_
     simp only [defsS, at0_append]
@@ -461,9 +468,10 @@ theorem fstmt (env : Env) (R : List String) (rl : Option Bool) (A : List (String
     simp only [typedS, Bool.and_eq_true] at ht
     simp only [flowS, Bool.and_eq_true] at hf
     obtain ⟨⟨⟨t1, t2⟩, t3⟩, t4⟩ := ht
-    obtain ⟨⟨⟨⟨⟨f1, f2⟩, f3⟩, f4⟩, f5⟩, f6⟩ := hf
-    obtain ⟨b1, b2⟩ := rlabel_elim f5
-    have hi : SemF A 0 0 (optRun (optGen init (genStmt env init))) (at0 (defsS init)) 0 0 0 :=
+    obtain ⟨⟨⟨⟨⟨⟨f1, f2⟩, f3⟩, f4⟩, f5⟩, f7⟩, f6⟩ := hf
+    obtain ⟨b1, _⟩ := rlabel_elim f5
+    have b2 := f7
+    have hi : SemF [] A 0 0 (optRun (optGen init (genStmt env init))) (at0 (defsS init)) 0 0 0 :=
       optRun_optGen (fun hn => fstmt env R rl A hR hret init (or_isNull t1 hn) (or_isNull f1 hn))
     have hc := optGenMap_sem (n := c) (g := genExpr env c) (t := c.ty?)
       (fun hn => fexpr env c (or_isNull t2 hn) (or_isNull f2 hn))
@@ -487,8 +495,9 @@ theorem fstmt (env : Env) (R : List String) (rl : Option Bool) (A : List (String
     rw [genStmt]
     simp only [typedS, Bool.and_eq_true, Bool.not_eq_true'] at ht
     simp only [flowS, Bool.and_eq_true] at hf
-    obtain ⟨⟨⟨f1, f2⟩, f3⟩, f4⟩ := hf
-    obtain ⟨b1, b2⟩ := rlabel_elim f3
+    obtain ⟨⟨⟨⟨f1, f2⟩, f3⟩, f5⟩, f4⟩ := hf
+    obtain ⟨b1, _⟩ := rlabel_elim f3
+    have b2 := f5
     obtain ⟨hcs, hd⟩ := casesOK_elim hR f4
     have hc := fexpr env c ht.1.1 f1
     rw [xOf_zero ht.1.2] at hc
@@ -562,7 +571,7 @@ theorem fstmts (env : Env) (R : List String) (rl : Option Bool) (A : List (Strin
     (hR : ∀ l, l ∈ R → (l, (⟨0, 0⟩ : H)) ∈ A)
     (hret : ∀ ld, rl = some ld → (retLabel env, (⟨0, if ld then 1 else 0⟩ : H)) ∈ A) :
     (l : NodeList) → typedSs env l = true → flowSs R rl l = true →
-    SemF A 0 0 (genStmts env l) (at0 (defsSs l)) 0 0 0
+    SemF [] A 0 0 (genStmts env l) (at0 (defsSs l)) 0 0 0
   | .nil, _, _ => by
     rw [genStmts]
     exact cl (Sem_pure ())
@@ -572,13 +581,12 @@ theorem fstmts (env : Env) (R : List String) (rl : Option Bool) (A : List (Strin
     simp only [flowSs, Bool.and_eq_true] at hf
     have h1 := fstmt env R rl A hR hret n ht.1 hf.1
     have h2 := fstmts env R rl A hR hret rest ht.2 hf.2
-    refine ((h1 ⨾ h2.weak (fun _ _ h => h) (by omega) (by omega)).conv rfl rfl (by omega) (by omega) (by omega)
-      (fun _ _ h => Or.inr h) (fun _ _ h => h)).congrG ?_
+    refine SemF.congrG (SemF_seq h1 h2) ?_
     simp only [defsSs, at0_append]
 theorem fbody (env : Env) (R : List String) (A : List (String × H))
     (hR : ∀ l, l ∈ R → (l, (⟨0, 0⟩ : H)) ∈ A) :
     (l : NodeList) → (ld : Bool) → typedBody env l ld = true → flowBody R l = true →
-    SemF A 0 0 (genStmtExprBody env l) (at0 (defsSs l)) 0 (if ld then 1 else 0) 0
+    SemF [] A 0 0 (genStmtExprBody env l) (at0 (defsSs l)) 0 (if ld then 1 else 0) 0
   | .nil, ld, ht, _ => by
     rw [genStmtExprBody]
     simp only [typedBody, Bool.not_eq_true'] at ht
@@ -587,16 +595,13 @@ theorem fbody (env : Env) (R : List String) (A : List (String × H))
   | .cons n rest, ld, ht, hf => by
     cases rest with
     | cons m rest' =>
-      rw [typedBody] at ht <;> first | (intro _ _ ha hb; first | cases hb | cases ha) | skip
-      rw [flowBody] at hf <;> first | (intro _ _ ha hb; first | cases hb | cases ha) | skip
-      rw [genStmtExprBody] <;> first | (intro _ _ ha hb; first | cases hb | cases ha) | skip
+      rw [typedBody] at ht <;> first | (intro _ _ ha hb; first | (cases hb; done) | (cases ha; done)) | skip
+      rw [flowBody] at hf <;> first | (intro _ _ ha hb; first | (cases hb; done) | (cases ha; done)) | skip
+      rw [genStmtExprBody] <;> first | (intro _ _ ha hb; first | (cases hb; done) | (cases ha; done)) | skip
       simp only [Bool.and_eq_true] at ht hf
       have h1 := fstmt env R none A hR (fun _ h => by cases h) _ ht.1 hf.1
       have h2 := fbody env R A hR _ ld ht.2 hf.2
-      have h3 := h1 ⨾ h2.weak (fun _ _ h => h) (by omega) (by omega)
-      trace_state
-      refine (h3.conv rfl rfl (by omega) (by omega) (by omega)
-        (fun _ _ h => Or.inr h) (fun _ _ h => h)).congrG ?_
+      refine SemF.congrG (SemF_seq h1 h2) ?_
       simp only [defsSs, at0_append]
     | nil =>
       cases n with
@@ -611,14 +616,13 @@ theorem fbody (env : Env) (R : List String) (A : List (String × H))
         rw [← hx]
         exact cl (by sem)
       | _ =>
-        rw [typedBody] at ht <;> first | (intro _ _ ha hb; first | cases hb | cases ha) | skip
-        rw [flowBody] at hf <;> first | (intro _ _ ha hb; first | cases hb | cases ha) | skip
-        rw [genStmtExprBody] <;> first | (intro _ _ ha hb; first | cases hb | cases ha) | skip
+        rw [typedBody] at ht <;> first | (intro _ _ ha hb; first | (cases hb; done) | (cases ha; done)) | skip
+        rw [flowBody] at hf <;> first | (intro _ _ ha hb; first | (cases hb; done) | (cases ha; done)) | skip
+        rw [genStmtExprBody] <;> first | (intro _ _ ha hb; first | (cases hb; done) | (cases ha; done)) | skip
         simp only [Bool.and_eq_true] at ht hf
         have h1 := fstmt env R none A hR (fun _ h => by cases h) _ ht.1 hf.1
         have h2 := fbody env R A hR _ ld ht.2 hf.2
-        refine ((h1 ⨾ h2.weak (fun _ _ h => h) (by omega) (by omega)).conv rfl rfl (by omega) (by omega) (by omega)
-          (fun _ _ h => Or.inr h) (fun _ _ h => h)).congrG ?_
+        refine SemF.congrG (SemF_seq h1 h2) ?_
         simp only [defsSs, at0_append]
 end
 
